@@ -77,7 +77,7 @@ def lean_ty(t):
             return "(" + " → ".join([lean_ty(a) for a in t[1]] + [res]) + ")"
     return {"int": "Int", "bool": "Bool", "str": "Str", "bytes": "(List Nat)", "row": "Row", "frag": "Fragment", "gap": "Gap",
             "ovres": "OverlapResult", "scaffold": "Scaffold", "bytesio": "PyRt.BytesIO", "unit": "Unit", "sink_str": "Str",
-            "sink_bytes": "(List Nat)", "nat": "Nat", "trtable": "(Char → Char)", "fastainfo": "FastaInfo", "ovref": "Nat", "premise": "Premise", "store": "(List Res)", "scref": "Nat", "ffref": "Nat", "found": "Found", "namer": "PyRt.SrcNamer", "lref": "Nat", "junction": "Junction", "assembly": "Assembly", "path": "Str", "fh": "Str", "bref": "PyRt.BuiltRef", "bsref": "Nat", "keytok": "PyRt.KeyTok", "gref": "Nat", "aref": "Nat", "asmobj": "PyRt.AsmObj", "tabres": "Bool", "tsink": "Unit"}[t]
+            "sink_bytes": "(List Nat)", "nat": "Nat", "trtable": "(Char → Char)", "fastainfo": "FastaInfo", "ovref": "Nat", "premise": "Premise", "store": "(List Res)", "scref": "Nat", "ffref": "Nat", "found": "Found", "namer": "PyRt.SrcNamer", "lref": "Nat", "junction": "Junction", "assembly": "Assembly", "path": "Str", "fh": "Str", "bref": "PyRt.BuiltRef", "bsref": "Nat", "keytok": "PyRt.KeyTok", "gref": "Nat", "aref": "Nat", "asmobj": "PyRt.AsmObj", "tabres": "Bool", "tsink": "Unit", "binfile": "PyRt.BinFile"}[t]
 
 
 # OBJECT TABLE: (type, python attribute) -> (result type, lean template, may raise)
@@ -133,6 +133,8 @@ ATTR = {
     ("asmobj", "name"): ("str", "{0}.name", False), ("asmobj", "curated"): ("bool", "{0}.curated", False),
     ("asmobj", "scaffolds"): (L("bsref"), "{0}.scaffolds", False),
     ("tabres", "errors"): ("bool", "{0}", False),
+    ("fastainfo", "file_offset"): ("int", "{0}.fileOffset", False), ("fastainfo", "residues_per_line"): ("int", "{0}.rpl", False),
+    ("fastainfo", "max_line_length"): ("int", "{0}.mll", False),
 }
 # writable attributes: (type, attr) -> lean field
 FIELD = {("ovres", "start"): "start", ("ovres", "end"): "stop", ("ovres", "rows"): "rows", ("scaffold", "rows"): "rows", ("assembly", "name"): "name", ("assembly", "curated"): "curated", ("assembly", "scaffolds"): "scaffolds", ("namer", "autosome_prefix"): "autosome_prefix", ("namer", "current_scaffold_name"): "current_scaffold_name", ("namer", "current_rank"): "current_rank", ("namer", "current_haplotype"): "current_haplotype", ("namer", "haplotig_n"): "haplotig_n", ("namer", "haplotig_scaffolds"): "haplotig_scaffolds", ("namer", "primary_haplotype"): "primary_haplotype", ("namer", "target_tags"): "target_tags", ("namer", "unloc_n"): "unloc_n", ("namer", "unloc_scaffolds"): "unloc_scaffolds", ("namer", "haplotype_lc_dict"): "haplotype_lc_dict"}
@@ -181,7 +183,7 @@ REGEX = {r"\s*$": ("(isBlankLine {0})", "bool", "match"),
          r"^([^_]+)_.+_\d+$": ("(hapPrefixOfName {0})", O(("match", 1)), "search"),
          r"([A-Za-z]+\d+)_": ("(PyRt.asmPrefixMatch {0})", O(("match", 1)), "match")}
 ERR_CATCH = {"FileExistsError": "fileExists"}
-ERR = {"ChrNamerError": "chrNamer", "TaggingError": "tagging", "ValueError": "value", "IndexError": "index", "KeyError": "key", "TypeError": "type", "NotImplementedError": "notImpl"}
+ERR = {"IndexUsageError": "usage", "ChrNamerError": "chrNamer", "TaggingError": "tagging", "ValueError": "value", "IndexError": "index", "KeyError": "key", "TypeError": "type", "NotImplementedError": "notImpl"}
 RESERVED = {"end", "from", "at", "in", "do", "then", "else", "if", "let", "have", "show", "fun", "match", "with", "where", "by", "open",
             "section", "namespace", "def", "theorem", "instance", "structure", "class", "deriving", "import", "max", "min", "new", "this", "rows", "prefix"}
 
@@ -700,10 +702,13 @@ class Kernel:
                 op = {ast.Add: "+", ast.Sub: "-", ast.Mult: "*"}.get(type(e.op))
                 if op:
                     return f"({a} {op} {b})", "int"
-                if isinstance(e.op, ast.FloorDiv):
-                    return f"(pyDiv {a} {b})", "int"
-                if isinstance(e.op, ast.Mod):
-                    return f"(pyMod {a} {b})", "int"
+                if isinstance(e.op, (ast.FloorDiv, ast.Mod)):
+                    fn = "pyDiv" if isinstance(e.op, ast.FloorDiv) else "pyMod"
+                    if isinstance(e.right, ast.Constant) and isinstance(e.right.value, int) and e.right.value != 0:
+                        return f"({fn} {a} {b})", "int"           # a non-zero literal divisor
+                    nm = self.fresh()
+                    binds.append((nm, f"(PyRt.{'floorDiv' if fn == 'pyDiv' else 'floorMod'} {a} {b})", "int"))     # ZeroDivisionError when the divisor is 0
+                    return nm, "int"
             if ta == tb and isinstance(ta, tuple) and ta[0] == "set" and isinstance(e.op, (ast.BitOr, ast.Sub, ast.BitAnd)):
                 fn = {ast.BitOr: "sUnion", ast.Sub: "sDiff", ast.BitAnd: "sInter"}[type(e.op)]
                 return f"({fn} {a} {b})", ta
@@ -1236,8 +1241,15 @@ class Kernel:
                 return "({ data := [], pos := 0 } : PyRt.BytesIO)", "bytesio"
             if n == "FastaInfo" and len(e.args) == 4:
                 xs = []
-                for a in e.args:
-                    t, ty = self.expr(a, env, binds)
+                vals = [self.expr(a, env, binds) for a in e.args]
+                if all(ty == "str" for _, ty in vals):
+                    # FastaInfo.__init__: int(length), int(file_offset), int(residues_per_line), int(max_line_length) — ValueError on bad text
+                    for t, _ in vals:
+                        nm = self.fresh()
+                        binds.append((nm, f"(pyInt {t})", "int"))
+                        xs.append(nm)
+                    return f"({{ length := {xs[0]}, fileOffset := {xs[1]}, rpl := {xs[2]}, mll := {xs[3]} }} : FastaInfo)", "fastainfo"
+                for t, ty in vals:
                     if ty == O("int"):
                         nm = self.fresh(); binds.append((nm, f"(PyRt.needInt {t})", "int")); t, ty = nm, "int"
                     if ty != "int":
@@ -1468,6 +1480,16 @@ class Kernel:
             if tb in ("tsink", "tabres") and m in ("new_header", "new_row", "new_cell", "new_line"):
                 self.sink_args(e.args, env, binds)          # building the report: nothing is kept
                 return "()", "tsink"
+            if tb == "binfile" and m == "read" and len(e.args) == 1 and isinstance(f.value, ast.Name):
+                obj = self.aliases.get(f.value.id, f.value.id)
+                n, tn = self.expr(e.args[0], env, binds)
+                if tn != "int":
+                    raise Unsupported("read() size")
+                rd = self.fresh("rd")
+                binds.append((rd, f"(PyRt.BinFile.read {mg(obj)} {n})", ("raw", "(List Nat × PyRt.BinFile)"), "let"))
+                binds.append((mg(obj), f"{rd}.2", "binfile", "let"))       # the position moves on
+                self.let_log.append(obj)
+                return f"{rd}.1", "bytes"
             if tb == "sink_str" and m == "getvalue" and not e.args:
                 return b, "str"
             if tb == "sink_str" and m == "tell" and not e.args:
@@ -1713,6 +1735,15 @@ class Kernel:
             if tv != td[2]:
                 raise Unsupported("update() argument type")
             return self.with_binds(binds, [self.let(d, td, f"dSet {mg(d)} {k} (sUnion ((dGet? {mg(d)} {k}).getD []) {v})")] + self.block(rest, env, loop))
+        if m == "seek" and isinstance(f.value, ast.Name) and env.get(self.aliases.get(f.value.id, f.value.id)) == "binfile" and not c.keywords \
+                and (len(c.args) == 1 or (len(c.args) == 2 and isinstance(c.args[1], ast.Constant) and c.args[1].value == 1)):
+            obj = self.aliases.get(f.value.id, f.value.id)
+            n, tn = self.expr(c.args[0], env, binds)
+            if tn != "int":
+                raise Unsupported("seek() offset")
+            nm = self.fresh("sk")
+            binds.append((nm, f"(PyRt.BinFile.{'seek' if len(c.args) == 1 else 'seekRel'} {mg(obj)} {n})", "binfile"))     # a negative position: OSError
+            return self.with_binds(binds, [self.let(obj, "binfile", nm)] + self.block(rest, env, loop))
         if m == "mark_error" and not c.args and isinstance(f.value, ast.Name) and env.get(f.value.id) == "tabres":
             return [self.let(f.value.id, "tabres", "true")] + self.block(rest, env, loop)
         if m == "sort" and not c.args and {k.arg for k in c.keywords} <= {"key", "reverse"} and any(k.arg == "key" for k in c.keywords):
@@ -2078,6 +2109,16 @@ class Kernel:
             self.local_defs[s.name] = s               # a local function used as a sort key: translated where it is used
             return self.block(rest, env, loop)
         if isinstance(s, ast.With) and len(s.items) == 1 and isinstance(s.items[0].optional_vars, ast.Name) \
+                and s.items[0].optional_vars.id in self.spec.get("text_lines", {}):
+            # `with file.open() as fh: for line in fh:` — the file is the declared list of its text lines (each with its line ending)
+            v = s.items[0].optional_vars.id
+            prm = self.spec["text_lines"][v]
+            self.param(prm, L("str"))
+            env2 = dict(env)
+            self.aliases[v] = prm
+            env2[prm] = L("str")
+            return self.block(list(s.body) + rest, env2, loop)
+        if isinstance(s, ast.With) and len(s.items) == 1 and isinstance(s.items[0].optional_vars, ast.Name) \
                 and s.items[0].optional_vars.id in self.spec.get("file_lines", {}):
             return self.block(list(s.body) + rest, env, loop)      # `with file.open("rb") as fh:` — fh is the declared sequence of lines
         if isinstance(s, ast.Expr) and isinstance(s.value, ast.Call) and isinstance(s.value.func, ast.Name) and s.value.func.id in self.spec.get("inline_closures", []) \
@@ -2268,7 +2309,7 @@ class Kernel:
         if isinstance(tg, ast.Name):
             # alias of an output object: `out = self.out`
             p = dotted(s.value)
-            if p and p in self.spec.get("dict_roots", {}) and (self.spec["dict_roots"][p] == "namer" or (isinstance(self.spec["dict_roots"][p], tuple) and self.spec["dict_roots"][p][0] == "dict")):
+            if p and p in self.spec.get("dict_roots", {}) and (self.spec["dict_roots"][p] in ("namer", "binfile") or (isinstance(self.spec["dict_roots"][p], tuple) and self.spec["dict_roots"][p][0] == "dict")):
                 self.aliases[tg.id] = p.replace(".", "_")       # a second name for a dictionary attribute
                 return self.block(rest, env, loop)
             if p and p in self.spec.get("sinks", {}):
@@ -2388,6 +2429,19 @@ class Kernel:
             l1, env2 = self.bind_var(tg.elts[0].id, f"{nm}.1", ty[1], env)
             l2, env2 = self.bind_var(tg.elts[1].value.id, f"{nm}.2", ty, env2)
             return self.with_binds(binds, [l1, l2] + self.block(rest, env2, loop))
+        # a, b, c, … = xs  (exactly as many items as names: ValueError otherwise)
+        if isinstance(tg, ast.Tuple) and len(tg.elts) > 2 and all(isinstance(x, ast.Name) for x in tg.elts) and not isinstance(s.value, ast.Tuple):
+            t, ty = self.expr(s.value, env, binds)
+            if not (isinstance(ty, tuple) and ty[0] == "list"):
+                raise Unsupported("unpacking of a non-list")
+            n_ = len(tg.elts)
+            nm = self.fresh("un")
+            binds.append((nm, f"(PyRt.unpackN {n_} {t})", ty))
+            lines, env2 = [], env
+            for k, x in enumerate(tg.elts):
+                l, env2 = self.bind_var(x.id, f"(({nm}).getD {k} default)", ty[1], env2)
+                lines.append(l)
+            return self.with_binds(binds, lines + self.block(rest, env2, loop))
         # d[k] = {} / [] through a second name of a dictionary attribute
         if isinstance(tg, ast.Subscript) and isinstance(tg.value, ast.Name) and tg.value.id in self.aliases and isinstance(env.get(self.aliases[tg.value.id]), tuple) \
                 and env[self.aliases[tg.value.id]][0] == "dict":
@@ -3532,6 +3586,13 @@ P3_KERNELS = [
          params={"asm": "assembly"}, attr_params={"self.autosome_prefix": "str"}, returns=O("str"),
          locals={"orig_chr_name": ("dict", O("str"), "str"), "localised": "str", "chr_name": "str"}),
     # the junction sets the statistics compare (C11): iterators are the lists of items still to come
+    # random access to the FASTA file (C03 / C14): the file handle is its bytes and a position
+    dict(file="fasta/index.py", qual="FastaIndex.sequence_bytes", lean="FastaIndex_sequence_bytes_imp", p2=True,
+         params={"info": "fastainfo", "start": "int", "end": "int"}, dict_roots={"self.fasta_fileandle": "binfile"}, returns="bytesio"),
+    # the .fai cache (C17 warm = cold): one row written, the file read back
+    dict(file="fasta/index.py", qual="FastaInfo.fai_row", lean="FastaInfo_fai_row", p2=True, params={"self": "fastainfo", "name": "str"}, returns="str"),
+    dict(file="fasta/index.py", qual="FastaIndex.load_index", lean="FastaIndex_load_index", p2=True, text_lines={"idx": "fai_lines"},
+         dict_roots={"self.index": ("dict", "str", "fastainfo")}, locals={"idx_dict": ("dict", "str", "fastainfo")}),
     dict(file="assembly/scaffold.py", qual="Scaffold.fragment_junction_set", lean="Scaffold_fragment_junction_set", p2=True,
          params={"self": "scaffold"}, returns=JSET, locals={"junctions": JSET}),
     dict(file="assembly/assembly.py", qual="Assembly.fragment_junctions_by_asm_prefix", lean="Assembly_fragment_junctions_by_asm_prefix", p2=True,
